@@ -177,7 +177,12 @@ class C14(Prop):
     id = "C14"
     lean_modules = ["PkgProofs.Props.C14"]
     generated = ["NameTables"]
-    theorems = []
+    theorems = ["Fn.tables_as_modelled", "Fn.parseWheel_parts", "Fn.parseWheel_spec", "Fn.str_no_dash", "Fn.parseBuild_dec",
+                "Fn.canon_escapeName", "C14.escaped_name_ok", "C14.wheel_roundtrip", "C14.mem_product",
+                "C14.sdist_roundtrip", "C14.sdist_roundtrip_escaped", "C14.tag_eq_iff", "C14.tag_case_insensitive",
+                "C14.tag_fields_lower", "C14.parse_tag_str", "C14.wheel_never_raw", "C14.reject_wrong_extension",
+                "C14.reject_wrong_parts", "C14.reject_bad_name", "C14.reject_bad_version", "C14.reject_bad_build",
+                "C14.sdist_reject_extension", "C14.sdist_reject_no_dash", "C14.sdist_reject_version", "V.scan_str"]
     rule = ("wheel file names assembled per the binary-distribution format from (name with digits/underscores/dots/dashes/upper case, "
             "PEP 440 structure incl. epochs, pre/post/dev, locals, optional build (number, suffix), multi-valued python/abi/platform sets), "
             "the same in alternate spellings (unescaped dots / upper case, re-spelled versions), and one damaged variant per damage kind "
@@ -187,7 +192,11 @@ class C14(Prop):
     trusted = ["hash(): Tag.__eq__ is modelled for an arbitrary hash function of the (interpreter, abi, platform) tuple",
                "str.lower per code point and the \\w, \\d, '.' tables: regenerated from the running interpreter / the patterns in the source",
                "Version(...) on the version part: the scanner model of PkgModel/Version.lean (tied by C02/C12 and by this correspondence)"]
-    partial = []
+    partial = ["int() of a build number longer than the interpreter's int-from-string limit (4300 digits) raises a bare ValueError; "
+               "the model has no such limit and the generators stay below it (interpreter limit, see C11/C12)",
+               "the context-dependent final form of U+03A3 in str.lower (names, tags) is outside the model; such inputs are not generated",
+               "an empty project-name part ('-1.0-py3-none-any.whl') is accepted by the code and by the model; the property "
+               "statement does not list it among the rejected damage kinds, so no law is attached to it"]
     budget = {"quick": (9000, 5000), "thorough": (160000, 90000)}
 
     # ---- correspondence
